@@ -188,3 +188,85 @@ def c18_placeholder_wire_roundtrip(ctx, v):
     c09_m_tx_roundtrip)."""
     from . import obl_c09
     obl_c09.c09_m_tx_roundtrip(ctx, v)
+
+
+def c18_generate_ordinals_count_placeholders(ctx, v):
+    """Block::generate on a lite block (what every receiver runs after decoding it): the ordinal
+    handed to Transaction::generate — which becomes tx_ordinal of the transaction's output slips and
+    so part of their ledger keys — is the transaction's position in the FULL block: a placeholder
+    (type SPV) standing for k omitted transactions advances the count by its txs_replacements = k,
+    every other transaction by one.  Blocks of 1..=3 transactions (thorough 4), types and
+    txs_replacements symbolic; Transaction::generate replaced by a recorder; merkle root and
+    hashing not entered."""
+    import re
+    body = ctx.body(r"block::<impl at [^>]*>::generate$")
+    ri = ctx.field_index("Transaction", "txs_replacements")
+    fi_tx = ctx.field_index("Block", "transactions")
+    sizes = (1, 2, 3) if ctx.tier == "quick" else (1, 2, 3, 4)
+    for n in sizes:
+        ex = ctx.executor(loop_bound=n + 4, inline="auto", max_paths=20000,
+                          no_inline=[r"Transaction::generate$", r"generate_merkle_root$", r"generate_pre_hash$", r"generate_hash$", r"generate_transaction_hashmap$", r"serialize_for_signature$", r"generate_cumulative_fees$"])
+        ex.pure = [r".*"]
+
+        def hook(ex_, st, callee, args, dty):
+            if re.search(r"Transaction::generate$", callee):
+                a = args[0]
+                if isinstance(a, S.Ref) and a.path and a.path[-1][0] == "i":
+                    st.events.append(("txgen", callee, (S.as_int(a.path[-1][1]), args[2]), None))
+                    return z3.BoolVal(True)
+                raise S.Unsupported("Transaction::generate on a transaction that is not an element of block.transactions")
+            return None
+        ex.on_call = hook
+        txs, types, reps, pre = [], [], [], []
+        for i in range(n):
+            t = ex.fresh_value("TransactionType", "tx%d.type" % i)
+            r = ex.fresh_value("u32", "tx%d.txs_replacements" % i)
+            out = L.sym_slip(ctx, ex, "tx%d.out0" % i)
+            txs.append(ctx.mk_struct(ex, "Transaction", "tx%d" % i, transaction_type=t, txs_replacements=r, **{"from": S.Seq([], "Slip"), "to": S.Seq([out], "Slip"), "path": S.Seq([], "Hop")}))
+            types.append(t); reps.append(r)
+            pre += [L.enum_in_range(t, L.TX_TYPES), L.enum_in_range(L.slip_field(ctx, out, "slip_type"), L.SLIP_TYPES), z3.ULE(r.bv, 1 << 20),
+                    z3.ULE(txs[-1].fields[ctx.field_index("Transaction", "total_work_for_me")].bv, 7 * 10**17)]
+        block = ctx.mk_struct(ex, "Block", "block", transactions=S.Seq(txs, "Transaction"))
+        st = S.State()
+        st.pc.extend(pre)
+        outs = ex.run(body, [S.Ref(S.Cell(block), (), True)], st)
+        v.paths += len(outs)
+        seen = merged = 0
+        is_spv = [L.enum_is(ctx, t, "TransactionType", "SPV") for t in types]
+        step = [z3.If(is_spv[i], z3.ZeroExt(32, reps[i].bv) if reps[i].bv.size() == 32 else reps[i].bv, z3.BitVecVal(1, 64)) for i in range(n)]
+        for o in outs:
+            if o.kind in ("unsupported", "unwound", "path-limit"):
+                return v.undecided("n=%d %s %s" % (n, o.kind, o.info))
+            if o.kind == "panic":
+                L.report_panic(v, ex, o, "n=%d: Block::generate panics: %s" % (n, o.info))
+                continue
+            if o.kind != "return":
+                continue
+            got = {}
+            for e in o.events:
+                if e[0] == "txgen":
+                    got.setdefault(e[2][0], e[2][1])
+            expected = z3.BitVecVal(0, 64)
+            for i in range(n):
+                if i in got:
+                    a = got[i]
+                    if not isinstance(a, S.I):
+                        return v.undecided("n=%d: ordinal argument is not an integer value" % n)
+                    abv = a.bv if a.bv.size() == 64 else z3.ZeroExt(64 - a.bv.size(), a.bv)
+                    r, m = ex.model_for(o.pc, abv != expected)
+                    v.queries += 1
+                    if r == z3.sat:
+                        v.sat += 1
+                        ev = lambda x: m.eval(x, model_completion=True).as_long()
+                        v.fail("block of %d: transaction %d is generated with an ordinal that is not its position in the full block (placeholders before it stand for several transactions)" % (n, i),
+                               dict(ordinal_given=ev(abv), position_in_full_block=ev(expected), types=[ev(t.discr.bv) for t in types], txs_replacements=[ev(x.bv) for x in reps]))
+                    elif r == z3.unsat:
+                        v.unsat += 1
+                    else:
+                        return v.undecided("n=%d solver %s" % (n, r))
+                expected = expected + step[i]
+            seen += 1
+            if n >= 2 and not merged:
+                merged = 1 if ex.feasible(o.pc, z3.And(is_spv[0], reps[0].bv == 2)) else 0
+        v.covers_total += 1
+        v.covers_sat += 1 if (seen and (merged or n < 2)) else 0
